@@ -13,6 +13,8 @@
 //     the parser accepts must be cut back by the resolver to exactly the grammar's ordering rules.
 //   - near-miss arm: one token of a valid token list is deleted, duplicated or swapped; the text is
 //     rejected with a position, or accepted with a tree that spells the same token sequence.
+//   - expression-entry arm (exprarm.go): ParseExpr on rendered expressions with blank/comment trailers
+//     (same tree oracle) and on expressions followed by further lines or tokens (must be rejected).
 //
 // Oracle notes (where the documents are silent or disagree, the monitor does not judge):
 //
@@ -52,7 +54,8 @@ func init() {
 			"one evaluation = one literal scanned in a small statement and judged (value, kind, raw text, positions of the literal and of the two following tokens). Distinct = distinct spellings. " +
 			"Near-miss arm: a case is one random base program rendered plain plus 20 single-token deletions/duplications/swaps within a line; one evaluation = one text parsed and judged. Distinct = distinct mutated texts. " +
 			"Trivial cases (a near-miss identical to its base) are not counted as distinct. " +
-			"Sequence arm: every parameter list over {required, optional, *, *args, **kwargs} and every argument list over {positional, named, *x, **x} up to length 4 (quick) or 6 (thorough), in def, lambda and call position and rotating layouts: accepted by parser+resolver exactly when the spec's ordering rules allow it, the accepted tree spelling the same kinds in the same order, a rejection positioned inside the text.",
+			"Sequence arm: every parameter list over {required, optional, *, *args, **kwargs} and every argument list over {positional, named, *x, **x} up to length 4 (quick) or 6 (thorough), in def, lambda and call position and rotating layouts: accepted by parser+resolver exactly when the spec's ordering rules allow it, the accepted tree spelling the same kinds in the same order, a rejection positioned inside the text. " +
+			"Expression-entry arm: a case is one random Expression (Test, bare tuple or systematic operator nest) rendered in 3 (quick) or 4 (thorough) layouts and given to FileOptions.ParseExpr, the deprecated syntax.ParseExpr and (closed expressions) starlark.ExprFuncOptions/EvalOptions: followed by one of 10 blank/comment trailers it must come back as the rendered tree with every position; followed by a line break or a blank and one of 46 continuations (another expression, a statement, an operator and operand, a stray bracket, an indented line, a malformed literal), or broken by a line break between two tokens outside brackets, it is not an Expression and must be rejected with a positioned error, while the same break inside brackets must leave the tree unchanged.",
 		Assumptions: []string{
 			"verif/internal/gen renderer: token text and position bookkeeping (re-checked per rendering against the text by offset lookup) and its precedence table written from doc/spec.md",
 			"precedence of `not`, conditional expressions and lambda taken from Python where doc/spec.md is silent",
@@ -93,6 +96,7 @@ func run(c *driver.Ctx) {
 		}
 		nearMissCase(c)
 	}
+	exprArm(c)
 }
 
 // ---------------------------------------------------------------------------------------------
@@ -425,7 +429,9 @@ func finish(ev map[string]any) (string, bool) {
 		reasons = append(reasons, fmt.Sprintf("the two float oracles (exact rational, strconv) disagree on %d literals", n))
 	}
 	for _, k := range []string{"tree_renderings_agreed", "literals_value_exact", "erroneous_literals_rejected", "near_misses_rejected_by_parser", "near_misses_accepted_same_tokens",
-		"near_misses_accepted_then_rejected_by_resolver", "corpus_chunks_rejected_at_annotated_line", "token_positions_checked"} {
+		"near_misses_accepted_then_rejected_by_resolver", "corpus_chunks_rejected_at_annotated_line", "token_positions_checked",
+		"parseexpr_valid_agreed", "parseexpr_non_expressions_rejected", "parseexpr_breaks_inside_brackets_agreed", "parseexpr_breaks_outside_brackets_rejected",
+		"parseexpr_non_expressions_rejected_through_evaluator_api"} {
 		if counters[k] == 0 {
 			reasons = append(reasons, "counter "+k+" is zero")
 		}
